@@ -165,7 +165,7 @@ def _slot(label, kind, own_limit, own_loc):
     return o
 
 
-def _drive(repo, script, end=6, timed=True, connect_twice=False, dangling_input=False, memory_slots=False, ctor=None):
+def _drive(repo, script, end=6, timed=True, connect_twice=False, dangling_input=False, memory_slots=False, ctor=None, retry_after_rejection=False):
     """Constructor, connect (through run) and run of a composition of the scripted components.
     Returns (interp, outcome) with outcome None | exception name."""
     from ..absbase import seed_from_init
@@ -207,6 +207,15 @@ def _drive(repo, script, end=6, timed=True, connect_twice=False, dangling_input=
         if connect_twice:
             it.run(conn, [0], {}, self_obj=me)
             it.run(conn, [0], {}, self_obj=me)
+        if retry_after_rejection:
+            # a connect() refused by validation, the unconnected input taken away again, then the run (which connects)
+            try:
+                it.run(conn, [0], {}, self_obj=me)
+                it.first_connect = None
+            except Raised as r:
+                it.first_connect = r.name
+            it.trace_at_rejection = len(it.trace)
+            comps[0].fields["inputs"].fields["_slot_items"] = []
         it.run(run, [], {"start_time": 0 if timed else None, "end_time": end if timed else None}, self_obj=me)
     except Raised as r:
         return it, r.name
@@ -311,6 +320,15 @@ def r06t_trace(repo, sink):
                    ok="also without time components an invalid composition is refused with FinamConnectError before any component connects",
                    bad=f"composition without time components and with an unconnected input: outcome {outcome}, life-cycle calls {seq} "
                        "(validation must not depend on how the start time is determined)")
+        it, outcome = _drive(repo, {"A": dict(step=2, connect_calls=1)}, dangling_input=True, retry_after_rejection=True)
+        seq = [p for _c, p in it.trace][getattr(it, "trace_at_rejection", 0):]
+        first = getattr(it, "first_connect", None)
+        sink.check(first == "FinamConnectError" and outcome is None and seq.count("connect") >= 1 and seq.count("validate") == 1 and seq.count("finalize") == 1,
+                   "R06", "life-trace:connect-again-after-rejection", run,
+                   ok="a connect() refused by validation leaves the composition unconnected: after the repair it connects, validates, runs and finalizes",
+                   bad=f"first connect() with an unconnected input: {first or 'accepted'}; after taking that input away the run ends with {outcome or 'no error'}, "
+                       f"life-cycle calls {seq}: a refused connect() must not mark the composition as connected (the repaired topology is never "
+                       "validated / connected)")
     except (AnalysisError, Undecided) as exc:
         sink.unknown("R06", "life-trace:special", run, f"outside vocabulary: {exc}")
 
